@@ -39,12 +39,12 @@ def with_timeout(seconds, fn, *a, **kw):
 
 
 # ------------------------------------------------------------------------------------------------ generator
-def gen_program(rng, cyclic=True, negation=True, ads=True, evidence=True, max_level=2, negloops=0.0):
+def gen_program(rng, cyclic=True, negation=True, ads=True, evidence=True, max_level=2, negloops=0.0, big=False):
     """Typed random program: base facts (probabilistic/deterministic), derived predicates on levels (negation only on
     strictly lower levels => predicate-level stratified; positive recursion allowed within a level), ADs with and
     without bodies, ground and non-ground queries, evidence that holds in a sampled world (consistent by construction,
     see `add_evidence`)."""
-    ncons = rng.choice([2, 2, 3])
+    ncons = 3 if big else rng.choice([2, 2, 3])
     consts = CONSTS[:ncons]
     preds = {}
     stmts = []
@@ -107,7 +107,7 @@ def gen_program(rng, cyclic=True, negation=True, ads=True, evidence=True, max_le
             r = mk_rule(name)
             if r is None:
                 continue
-            if rng.random() < 0.2:
+            if rng.random() < (0.5 if big else 0.2):
                 stmts.append(("prule", F(rng.randint(1, 9), 10), r[0], r[1]))
             else:
                 stmts.append(("rule", r[0], r[1]))
